@@ -39,7 +39,7 @@ func init() {
 }
 
 func genFNAPPLY(c *Ctx) {
-	n := c.Scale(700, 120000)
+	n := c.Scale(350, 120000)
 	for k := 0; k < n; k++ {
 		p := randomPosition(c.R)
 		if p == nil {
